@@ -69,34 +69,59 @@ Theorem count_inexact_upper_bound : forall (A : Type) (c : cfg) (pp : bool) (kee
 Proof. exact (@count_inexact_upper_p). Qed.
 Print Assumptions count_inexact_upper_bound.
 
-(* any agrees with iteration for every limit except 0 ... *)
-Theorem any_agrees_partial : forall (A : Type) (c : cfg) (pp : bool) (keep : A -> bool) (lim : option Z) (rows : list A),
-  0 <= raw_page c -> 0 <= factor c -> lim_pos lim ->
-  any pp keep rows true true = Ok (negb (is_nil (iterate c pp keep lim rows))).
+(* any agrees with iteration for EVERY accepted limit, 0 included (repair 84ff715) *)
+Theorem any_agrees : forall (A : Type) (c : cfg) (pp : bool) (keep : A -> bool) (lim : option Z) (rows : list A),
+  0 <= raw_page c -> 0 <= factor c -> lim_ok lim ->
+  any pp keep lim rows true true = Ok (negb (is_nil (iterate c pp keep lim rows))).
 Proof. exact (@any_agrees_p). Qed.
-Print Assumptions any_agrees_partial.
+Print Assumptions any_agrees.
 
-(* ... and for limit = 0 the faithful model violates the property (finding F-C16-any-limit0) *)
-Theorem any_agrees_limit0_refuted : exists (pp : bool) (rows : list Z),
-  iterate c4 pp (fun _ => true) (Some 0) rows = [] /\ count pp (fun _ => true) (Some 0) rows true true = Ok 0
-  /\ any pp (fun _ => true) rows true true = Ok true.
-Proof. exact any_limit0_refuted_p. Qed.
-Print Assumptions any_agrees_limit0_refuted.
+Theorem results_any_agrees : forall (A : Type) (c : cfg) (pp : bool) (keep : A -> bool) (lim : option Z) (rows : list A),
+  0 <= raw_page c -> 0 <= factor c -> lim_ok lim ->
+  results_any pp keep lim rows true true = Ok (negb (is_nil (iterate c pp keep lim rows)))
+  /\ results_iterate c pp keep lim rows = Ok (iterate c pp keep lim rows).
+Proof. exact (@results_any_agrees_p). Qed.
+Print Assumptions results_any_agrees.
 
 Theorem any_false_is_sound : forall (A : Type) (c : cfg) (pp : bool) (keep : A -> bool) (lim : option Z) (rows : list A) (e x : bool),
   0 <= raw_page c -> 0 <= factor c -> lim_ok lim ->
-  any pp keep rows e x = Ok false -> iterate c pp keep lim rows = [].
+  any pp keep lim rows e x = Ok false -> iterate c pp keep lim rows = [].
 Proof. exact (@any_false_sound_p). Qed.
 Print Assumptions any_false_is_sound.
 
-(* negative limits passed straight to Query.limit (finding F-C16-negative-limit) *)
-Theorem negative_limit_refuted :
+(* a negative limit on a results object is refused (repair dc45863): nothing is iterated, counted or tested *)
+Theorem negative_limit_refused : forall (A : Type) (c : cfg) (pp : bool) (keep : A -> bool) (k : Z) (rows : list A) (e x : bool),
+  k < 0 ->
+  results_iterate c pp keep (Some k) rows = ErrInvalidQuery
+  /\ results_count pp keep (Some k) rows e x = ErrInvalidQuery
+  /\ results_any pp keep (Some k) rows e x = ErrInvalidQuery.
+Proof. exact (@negative_limit_refused_p). Qed.
+Print Assumptions negative_limit_refused.
+
+Theorem accepted_limit_passes : forall (A : Type) (c : cfg) (pp : bool) (keep : A -> bool) (lim : option Z) (rows : list A) (e x : bool),
+  lim_ok lim ->
+  results_iterate c pp keep lim rows = Ok (iterate c pp keep lim rows)
+  /\ results_count pp keep lim rows e x = count pp keep lim rows e x
+  /\ results_any pp keep lim rows e x = any pp keep lim rows e x.
+Proof. exact (@accepted_limit_passes_p). Qed.
+Print Assumptions accepted_limit_passes.
+
+(* ---- the PRE-FIX variants violate the property: reverting either repair is known to break it ------------- *)
+(* any_driver = what result objects answered before 84ff715 (still the answer of Query.any on the un-sliced query) *)
+Theorem any_prefix_limit0_refuted : exists (pp : bool) (rows : list Z),
+  iterate c4 pp (fun _ => true) (Some 0) rows = [] /\ count pp (fun _ => true) (Some 0) rows true true = Ok 0
+  /\ any_driver pp (fun _ => true) rows true true = Ok true.
+Proof. exact any_prefix_limit0_refuted_p. Qed.
+Print Assumptions any_prefix_limit0_refuted.
+
+(* the driver reached with a raw negative limit, as before dc45863 *)
+Theorem negative_limit_prefix_refuted :
   (exists rows : list Z, iterate c4 true (fun _ => true) (Some (-1)) rows = []
                          /\ count true (fun _ => true) (Some (-1)) rows true true = Ok 3)
   /\ (exists rows : list Z, iterate c4 false (fun _ => true) (Some (-1)) rows = rows /\ rows <> []
                             /\ count false (fun _ => true) (Some (-1)) rows true true = Ok (-1)).
-Proof. exact negative_limit_refuted_p. Qed.
-Print Assumptions negative_limit_refuted.
+Proof. exact negative_limit_prefix_refuted_p. Qed.
+Print Assumptions negative_limit_prefix_refuted.
 
 (* ---- Butler.query_data_ids / query_datasets / query_dimension_records ------------------------------------- *)
 Theorem butler_limit : forall (A : Type) (c : cfg) (pp : bool) (keep : A -> bool) (limit : option Z) (explain : bool) (rows : list A),
@@ -173,6 +198,11 @@ Example ex_spelling : let rows := [[Some 0; Some 5]; [Some 0; Some 7]; [None; So
   filter (constraint_pred [(0%nat, 0); (1%nat, 5)] [(1%nat, 7)]) rows = [[Some 0; Some 7]]
   /\ NoDup (keys_of [(0%nat, 0); (1%nat, 5)]) /\ NoDup (keys_of [(1%nat, 7)]).
 Proof. vm_compute. repeat split; repeat constructor; simpl; intuition congruence. Qed.
+
+Example ex_any_limit0 : any false (fun _ : Z => true) (Some 0) [1; 2; 3] true true = Ok false
+  /\ any false (fun _ : Z => true) (Some 2) [1; 2; 3] true true = Ok true
+  /\ results_iterate c4 false (fun _ : Z => true) (Some (-1)) [1; 2; 3] = ErrInvalidQuery.
+Proof. vm_compute. auto. Qed.
 
 Example ex_butler_negative : butler_query {| raw_page := 2; factor := 10 |} false (fun _ : Z => true) (Some (-2)) true [1; 2; 3]
   = (Ok [1; 2], true).
